@@ -50,7 +50,7 @@ def q(s: str) -> str:
 # ---------------------------------------------------------------------------
 WORDS = ["abc", "hello world", "aXbXc", "a1b22c333", "foo.bar", "2020-01-02", "  padded  ", "xxaxx", "a,b,,c", "one two  three", "aaa", ""]
 UNI = ["Ünï", "é✓"]  # only for functions whose semantics on non-ASCII text is unambiguous
-PATTERNS = ["b", "o", "[0-9]+", "a+", "[a-z]+", "(a)(b)", "x|X", "o w", "\\d+", "\\w+", "[^a-z]", "l+", "(\\w)(\\d)", "z"]
+PATTERNS = ["\\bab", "\\b[a-z]+\\b", "d\\b", "b", "o", "[0-9]+", "a+", "[a-z]+", "(a)(b)", "x|X", "o w", "\\d+", "\\w+", "[^a-z]", "l+", "(\\w)(\\d)", "z"]
 
 
 def rand_date(r: random.Random) -> datetime.date:
@@ -341,6 +341,11 @@ def f_equal_null(r: random.Random):
 
 def f_cast(r: random.Random):
     x = r.random()
+    if x < 0.1:
+        # the one-parameter spelling NUMBER(p): scale 0, precision p, half away from zero for FLOAT inputs
+        v = r.choice([2.5, 0.5, -4.5, 3.5, 1.5, -0.5, 2.4, -2.6, 7.0])
+        spell = r.choice(["NUMBER(10)", "DECIMAL(5)", "NUMERIC(8)", "NUMBER(10,0)"])
+        return f"{v!r}::FLOAT::{spell}", D(int(round_half_away(D(repr(v)), 0))), "float-to-number-p/" + ("midpoint" if abs(v) % 1 == 0.5 else "other")
     if x < 0.3:
         v = D(r.randint(-9999, 9999)).scaleb(-r.randint(0, 3))
         if r.random() < 0.4:
